@@ -82,6 +82,45 @@ PROPS["C09"] = dict(units=["min_invsqrt", "consts"], assumptions=[M_SQRT, M_PRIM
     not_decided=["our_sqrt loop invariant (Tonelli-Shanks) -- assumed (M-SQRT)", "arkworks build: window algebra of sqrt_ratio_zeta and SquareRootTables::new -- assumed (M-SQRT); index bounds / overflow see unit ark_invsqrt when present", "Field::sqrt (arkworks generic routine over SQRT_PRECOMP, A-ARK-1)"])
 PROPS["C10"]["units"] = list(PROPS["C10"]["units"]) + ["fieldx_fq", "fieldx_fr", "fieldx_fp"]
 
+# bounded stand-ins (thorough tier only; never counted as proved): probes of /verif/replay_runner against the real crate
+_F = [("ark", "field.fq"), ("ark", "field.fr"), ("ark", "field.fp"), ("min", "field.fq"), ("min", "field.fr"), ("min", "field.fp")]
+PROBES = {
+    "C01": [("ark", "curve.encode"), ("ark", "curve.decode"), ("min", "min.all")],
+    "C02": [("ark", "curve.decode"), ("ark", "field.fq"), ("min", "min.all"), ("min", "field.fq")],
+    "C03": [("ark", "curve.encode"), ("min", "min.all")],
+    "C04": [("ark", "curve.ops"), ("min", "min.all")],
+    "C05": [("ark", "curve.mul"), ("min", "min.all")],
+    "C06": [("ark", "curve.ctor")],
+    "C07": [("ark", "curve.elligator"), ("min", "min.all")],
+    "C08": [("ark", "curve.eqhash"), ("min", "min.all")],
+    "C09": [("ark", "curve.sqrt"), ("min", "min.all")],
+    "C10": _F, "C11": _F,
+    "C12": _F + [("ark", "curve.encode"), ("ark", "curve.decode"), ("ark", "curve.ops"), ("ark", "curve.mul"), ("ark", "curve.elligator"), ("min", "min.all")],
+    "C13": [("r1cs", "r1cs.d6")], "C14": [("r1cs", "r1cs.hints")], "C16": [("ark", "bls")],
+}
+for _p, _l in PROBES.items():
+    if _p in PROPS:
+        PROPS[_p]["probes"] = _l
+
+WATCH = {
+    "C02": {"src/ark_curve/serialize.rs": [("ark", "curve.decode")], "src/fields/fq/arkworks.rs": [("ark", "field.fq"), ("ark", "curve.decode")]},
+    "C03": {"src/ark_curve/serialize.rs": [("ark", "curve.encode")]},
+    "C05": {"src/ark_curve/element/projective.rs": [("ark", "curve.mul")], "src/ark_curve/element.rs": [("ark", "curve.mul")]},
+    "C06": {"src/ark_curve/element.rs": [("ark", "curve.ctor")], "src/ark_curve/rand.rs": [("ark", "curve.ctor")], "src/ark_curve/edwards.rs": [("ark", "curve.ctor")]},
+    "C09": {"src/ark_curve/invsqrt.rs": [("ark", "curve.sqrt")], "src/min_curve/invsqrt.rs": [("min", "min.all")], "src/fields/fq/arkworks.rs": [("ark", "curve.sqrt")]},
+    "C10": {f"src/fields/{f}/u32/wrapper.rs": [("min", f"field.{f}")] for f in ("fq", "fr", "fp")},
+    "C11": dict([(f"src/fields/{f}.rs", [("ark", f"field.{f}"), ("min", f"field.{f}")]) for f in ("fq", "fr", "fp")] +
+                [(f"src/fields/{f}/arkworks.rs", [("ark", f"field.{f}")]) for f in ("fq", "fr", "fp")] +
+                [(f"src/fields/{f}/u32/wrapper.rs", [("min", f"field.{f}")]) for f in ("fq", "fr", "fp")]),
+    "C12": dict([(f"src/fields/{f}/u32/wrapper.rs", [("min", f"field.{f}")]) for f in ("fq", "fr", "fp")] +
+                [(f"src/fields/{f}/u32/fiat.rs", [("min", f"field.{f}")]) for f in ("fq", "fr", "fp")]),
+    "C13": {"src/ark_curve/r1cs/inner.rs": [("r1cs", "r1cs.d6")], "src/ark_curve/r1cs/element.rs": [("r1cs", "r1cs.d6")], "src/ark_curve/r1cs/lazy.rs": [("r1cs", "r1cs.d6")]},
+    "C14": {"src/ark_curve/r1cs/inner.rs": [("r1cs", "r1cs.hints")], "src/ark_curve/r1cs/element.rs": [("r1cs", "r1cs.hints")]},
+}
+for _p, _w in WATCH.items():
+    if _p in PROPS:
+        PROPS[_p]["watch"] = _w
+
 NOT_APPLICABLE = {
     "C15": "circuit shape / pinned Groth16 keys: the subject is the hidden ark_relations constraint store and binary key files; no pre/postcondition on a /repo function can state matrix equality across runs or SNARK verification (DESIGN.md C15)",
 }
